@@ -350,6 +350,9 @@ pub fn run(ctx: &mut Ctx) {
             .collect();
         ctx.evaluations += 1;
         ctx.count("schedules_executed");
+        if ji % 997 == 0 {
+            ctx.sample(|| format!("forced schedule {:?} (thread index per step) of scripts {:?}", order, scripts));
+        }
         ctx.cover(&format!("sched|{:?}|{}|{:?}", lens, rep, order));
         for (ti, pc, got, wanted) in run_schedule(&scripts, order, &want) {
             ctx.count("reads_checked");
